@@ -626,3 +626,61 @@ def get(model):
     if id(model) not in _cache:
         _cache[id(model)] = E3(model)
     return _cache[id(model)]
+
+
+def walk_transactions(model, entries=None, db="chan"):
+    """yield (path, event, prior, later, loops) for every SQL event on `db`,
+    each event object once.  prior = earlier items of the same transaction
+    (sql events and commit-free loop composites); later = following events of
+    the same event list up to (not including) the next commit."""
+    entries = entries or ["ws:onMessage", "ws:onClose", "ws:onOpen",
+                          "ws:onConnect", "timer"]
+    done = set()
+    out = []
+
+    def walk(path, events, prior, loops):
+        prior = list(prior)
+        for idx, e in enumerate(events):
+            k = e["k"]
+            if k == "commit" and e["db"] == db:
+                prior = []
+            elif k == "loop":
+                has_commit = any(x["k"] == "commit" and x["db"] == db
+                                 for alt in e["alts"]
+                                 for x, _ in flat_events(alt["events"]))
+                if id(e) not in done:
+                    done.add(id(e))
+                    for alt in e["alts"]:
+                        walk(path, alt["events"], [] if has_commit else prior,
+                             loops + (e,))
+                if has_commit:
+                    prior = []
+                else:
+                    prior.append(e)
+            elif k == "sql" and e["db"] == db:
+                if id(e) not in done:
+                    done.add(id(e))
+                    later = []
+                    for x in events[idx + 1:]:
+                        if x["k"] == "commit" and x["db"] == db:
+                            break
+                        later.append(x)
+                    out.append((path, e, list(prior), later, loops))
+                prior.append(e)
+
+    for en in entries:
+        for p in model.paths(en):
+            walk(p, p.events, [], ())
+    return out
+
+
+def sql_in(items, db="chan"):
+    """sql events among transaction items, descending into loop composites"""
+    for it in items:
+        if it["k"] == "sql" and it["db"] == db:
+            yield it
+        elif it["k"] == "loop":
+            for alt in it["alts"]:
+                for x, _ in flat_events(alt["events"]):
+                    if x["k"] == "sql" and x["db"] == db:
+                        yield x
